@@ -30,4 +30,6 @@ func init() {
 		c.Flush(false)
 		c14HTTP(c)
 	})
+	Register("C04", func(c *RunCtx) { c04Enumerate(c) })
+	Register("C06", func(c *RunCtx) { c06Enumerate(c) })
 }
